@@ -7,6 +7,20 @@ impl Func {
     #[verifier::external_body]
     pub fn run1(&self, env: &REnv, arg: Obj) -> (r: NRes<Obj>) ensures r == run_spec(*self, seq![arg]) { unimplemented!() }
 }
+impl Func {
+    #[verifier::external_body]
+    pub fn run(&self, env: &REnv, args: Vec<Obj>) -> (r: NRes<Obj>) ensures r == run_spec(*self, args@) { unimplemented!() }
+    // whether (and into what) two adjacent operators of a chain merge; a function of the two operator values
+    #[verifier::external_body]
+    pub fn try_chain(&self, other: &Func) -> (r: Option<Func>) ensures r == chain_spec(*self, *other) { unimplemented!() }
+}
+pub uninterp spec fn chain_spec(f: Func, g: Func) -> Option<Func>;
+// add_trace only decorates errors: Ok values pass through unchanged
+#[verifier::external_body]
+pub fn add_trace<T, F: FnOnce() -> String>(res: NRes<T>, thing: F, start: CodeLoc, end: CodeLoc) -> (r: NRes<T>)
+    ensures res is Ok ==> r == res, res is Err ==> r is Err
+{ unimplemented!() }
+impl Default for Obj { #[verifier::external_body] fn default() -> (r: Obj) ensures r == Obj::Null { unimplemented!() } }
 impl Clone for Obj { #[verifier::external_body] fn clone(&self) -> (r: Obj) ensures r == *self { unimplemented!() } }
 pub uninterp spec fn truthy_spec(o: Obj) -> bool;
 impl Obj {
